@@ -1804,8 +1804,8 @@ esl_sq_GetFromMSA(const ESL_MSA *msa, int which, ESL_SQ *sq)
     {
       strcpy(sq->seq, msa->aseq[which]);
       if (ss != NULL) { 
-	if (sq->ss == NULL) esl_strdup(ss, -1, &(sq->ss));
-	else                strcpy(sq->ss, ss);
+	if (sq->ss == NULL) ESL_ALLOC(sq->ss, sizeof(char) * sq->salloc); /* salloc, like seq: a reused <sq> may receive a longer ss next time */
+	strcpy(sq->ss, ss);
 	esl_strdealign(sq->ss, sq->seq, gapchars, NULL);
       }
       for (x = 0; x < sq->nxr; x++) {
@@ -1819,12 +1819,9 @@ esl_sq_GetFromMSA(const ESL_MSA *msa, int which, ESL_SQ *sq)
     {
       esl_abc_dsqcpy(msa->ax[which], msa->alen, sq->dsq);
       if (ss != NULL) { 
-	if (sq->ss == NULL) { /* even in digital mode, msa->ss is [0.alen-1] */
-	  ESL_ALLOC(sq->ss, sizeof(char) * (strlen(ss)+2));
-	  sq->ss[0] = '\0'; 
-	  strcpy(sq->ss+1, ss);
-	}
-	else  { strcpy(sq->ss+1, ss); sq->ss[0] = '\0'; }
+	if (sq->ss == NULL) ESL_ALLOC(sq->ss, sizeof(char) * sq->salloc); /* even in digital mode, msa->ss is [0.alen-1]; salloc >= alen+2 */
+	strcpy(sq->ss+1, ss); 
+	sq->ss[0] = '\0';
 	esl_abc_CDealign(sq->abc, sq->ss+1, sq->dsq, NULL);
       }
       for (x = 0; x < sq->nxr; x ++) { /* even in digital mode, msa->gr are [0.alen-1] */
